@@ -333,7 +333,7 @@ func (fe *formEval) eval1(v ssa.Value) poly {
 			}
 			return atomPoly("min(" + a + "," + bb + ")")
 		}
-		if sc := x.Call.StaticCallee(); sc != nil && (sc.Name() == "min" || strings.HasPrefix(sc.Name(), "min[")) && len(x.Call.Args) == 2 && isMinFunction(sc) {
+		if sc := x.Call.StaticCallee(); sc != nil && len(x.Call.Args) == 2 && isMinFunction(sc) {
 			a, b := fe.eval(x.Call.Args[0]).String(), fe.eval(x.Call.Args[1]).String()
 			if a > b {
 				a, b = b, a
